@@ -151,16 +151,16 @@ def worker(task):
 def samples():
     out = []
     P = np.array([[0, 1, 0, 0], [0, 0, 1, 0], [0, 1, 0, 1], [0, 0, 1, 0]])
-    out.append({"function": F + "maximally_orient", "inputs": {"P": C.jsonable(P)}, "library": U.maximally_orient(P).tolist(),
+    out.append({"function": F + "maximally_orient", "inputs": {"P": C.jsonable(P)}, "library": C.lib(U.maximally_orient, P, render=lambda r: r.tolist()),
                 "oracle": C.mat(4, O.essential(O.extensions(4, O.encode(P))))})
     P = np.array([[0, 1, 1, 1], [1, 0, 0, 1], [1, 0, 0, 1], [1, 0, 0, 0]])
-    out.append({"function": F + "maximally_orient", "inputs": {"P": C.jsonable(P)}, "library": U.maximally_orient(P).tolist(),
+    out.append({"function": F + "maximally_orient", "inputs": {"P": C.jsonable(P)}, "library": C.lib(U.maximally_orient, P, render=lambda r: r.tolist()),
                 "oracle": C.mat(4, O.essential(O.extensions(4, O.encode(P)))), "note": "Meek rule 3"})
-    out.append({"function": F + "pdag_to_dag", "inputs": {"P": C.jsonable(P)}, "library": U.pdag_to_dag(P).tolist(),
+    out.append({"function": F + "pdag_to_dag", "inputs": {"P": C.jsonable(P)}, "library": C.lib(U.pdag_to_dag, P, render=lambda r: r.tolist()),
                 "oracle_extensions": [C.mat(4, g) for g in O.extensions(4, O.encode(P))]})
     P = np.array([[0, 1, 0, 1], [1, 0, 1, 0], [0, 1, 0, 1], [1, 0, 1, 0]])
     out.append({"function": F + "has_consistent_extension", "inputs": {"pdag": C.jsonable(P)},
-                "library": bool(U.has_consistent_extension(P)), "oracle": bool(O.extensions(4, O.encode(P)))})
+                "library": C.lib(U.has_consistent_extension, P, render=bool), "oracle": bool(O.extensions(4, O.encode(P)))})
     return out
 
 
@@ -185,7 +185,7 @@ def run(tier, seed):
             "or raises ValueError iff that set is empty; has_consistent_extension agrees; for PDAGs with an extension maximally_orient "
             "equals the union graph of the extensions (directed iff all agree) and the extension set of the result is unchanged; inputs "
             "must not be modified. non-trivial = PDAG with >=1 edge; distinct = exact integer key (p, matrix bits) in a set" % pm)
-    return C.report(tally, rule, exhaustive=True, bound="p<=%d" % pm, samples=samples())
+    return C.report(tally, rule, exhaustive=True, bound="p<=%d" % pm, samples=C.safe_samples(samples))
 
 
 if __name__ == "__main__":
